@@ -28,6 +28,9 @@ def run(run, args):
         violation(run, {"broken": "translator tools/gen_table.py cannot read the source", "detail": msg}, nofail=True)
     run.oblige("translator reads table.rs / nist_mass.json", True, msg)
 
+    # the code that consumes the table (element.rs: index_isotopes, calc_min/max, PeriodicTable::add/get; helper.rs) = TableModel.v
+    source_tie(run, ("element",))
+
     ok, log = build_harness()
     run.oblige("harness builds against /repo", ok, log[-400:] if not ok else "")
     if not ok:
